@@ -25,6 +25,7 @@ DECIDED = [
     "action (it would be taken for an actor failure and trigger a second disposition)",
     "R-C13-LAZY: the lazy result slot takes the place of the latest set_result/set_exception call (shared with C16)",
     "R-C13-VALIDATE: Connection.__post_init__ probes the results broker's bucket class against ResultBucketT",
+    "R-C13-VALIDATE (config): Connection._update_from_config gives each broker the Config class of its own role (results broker <- RESULT_BUCKET)",
 ]
 NOT_DECIDED = ["bucket content across retry chains as a value (follows from same-id overwrite)", "bucket TTL expiry timing"]
 ASSUMPTIONS = ["store_bucket under an existing id overwrites (both bucket brokers: dict assignment / Redis SET)"]
